@@ -48,6 +48,7 @@ Proof. split; [unfold cur_wf; cbn; lia | vm_compute; reflexivity]. Qed.
 From AV.Model Require Import Interp.
 From AV.Spec Require Import WorldSpec.
 From AV.Proofs Require Import WorldProofs.
+From AV.Proofs Require Import IterProofs.
 (** WHOLE HISTORIES: iter / iter_mut (typed and erased), an iterator and its clone, nth / nth_back are part of the history fragment of AV.Props.C01.  On the list specification [WorldSpec.sp_look] the iterator is the index cursor [i, j) over the vector's list: next() yields xs[i] and moves i up, next_back() yields xs[j-1] and moves j down, the size hint after every call is exactly j - i, an exhausted cursor keeps answering None ([sp_walk_ro]); a clone continues from the same position without disturbing the original ([sp_adv]); nth(n) / nth_back(n) yield the n-th element from that end and consume n + 1, or exhaust the iterator ([sp_walk_nth]).  The byte-level machine does exactly this for EVERY call sequence at any point of any history, and leaves every vector untouched ([C14_look_in_histories], by the inductions [C14_walk_ro], [C14_walk_nth]). *)
 Theorem C14_walk_ro :
   forall (c : Vec.cfg) (w : world) (vid : nat) (av : avec) (vv : Vec.vec),
@@ -82,6 +83,26 @@ Theorem C14_look_in_histories :
          ufuse (wuw w) = None -> sp_look c st (unext (wuw w)) o = Some r -> res_matches c w (exec c o w) r.
 Proof. exact exec_look. Qed.
 
+(** the cursor arithmetic never leaves the machine's index space: from a well-formed cursor whose end is a machine integer, every call sequence keeps index <= end <= usize::MAX, every size hint and every yielded position is a machine integer - no `index + 1` wraps, no `end - 1` underflows; the unbounded arithmetic of the model is the machine's *)
+Theorem C14_cursor_stays_in_index_space :
+  forall (calls : list bool) (k : cursor),
+         cur_in_range k ->
+         let
+         '(outs, k') := run_cur calls k in
+          cur_in_range k' /\
+          Forall
+            (fun o : call_out =>
+             co_hint o <= usize_max /\ match co_item o with
+                                       | Some x => x < usize_max
+                                       | None => True
+                                       end) outs.
+Proof. exact run_cur_in_range. Qed.
+
+(** the hypothesis holds for the cursor of `cursor_max`: usize::MAX-3 .. usize::MAX *)
+Theorem C14_cursor_at_the_end_of_the_index_space :
+  cur_in_range {| ci := usize_max - 3; ce := usize_max |}.
+Proof. exact cursor_at_the_end_in_range. Qed.
+
 (* ---- end histories ---- *)
 Print Assumptions C14_partition.
 Print Assumptions C14_exact_size.
@@ -90,3 +111,5 @@ Print Assumptions C14_positions_distinct.
 Print Assumptions C14_walk_ro.
 Print Assumptions C14_walk_nth.
 Print Assumptions C14_look_in_histories.
+Print Assumptions C14_cursor_stays_in_index_space.
+Print Assumptions C14_cursor_at_the_end_of_the_index_space.
